@@ -319,6 +319,110 @@ def tags(rec):
         rec.violation("tag-sign1", "COSE_Sign1 block is not tag 18", {"kind": "tags"})
     if not ok96:
         rec.violation("tag-encrypt", "COSE_Encrypt is not tag 96", {"kind": "tags"})
+    if out.ok and out2.ok:
+        tags_parse(rec, out.value, out2.value)
+
+
+OTHER_TAGS = [None, 0, 1, 16, 17, 19, 24, 61, 95, 97, 98, 106, 108, 1070, 55799, 107, 18, 96]
+
+
+def _tag_nodes(x, path=()):
+    """DFS over a hostile tree: yields the path of every Tag node"""
+    from ..gen import hostile as Hh
+    if isinstance(x, mcbor.Tag):
+        yield path
+        yield from _tag_nodes(x.value, path + ("t",))
+    elif isinstance(x, Hh.B):
+        yield from _tag_nodes(x.v, path + ("b",))
+    elif isinstance(x, mcbor.Pairs):
+        for i, (k, v) in enumerate(x.items):
+            yield from _tag_nodes(v, path + (("p", i),))
+    elif isinstance(x, list):
+        for i, v in enumerate(x):
+            yield from _tag_nodes(v, path + (i,))
+
+
+def _retag(x, path, newtag):
+    from ..gen import hostile as Hh
+    if not path:
+        return x.value if newtag is None else mcbor.Tag(newtag, x.value)
+    h, rest = path[0], path[1:]
+    if h == "t":
+        return mcbor.Tag(x.tag, _retag(x.value, rest, newtag))
+    if h == "b":
+        return Hh.B(_retag(x.v, rest, newtag))
+    if isinstance(h, tuple):
+        return mcbor.Pairs([(k, _retag(v, rest, newtag) if i == h[1] else v) for i, (k, v) in enumerate(x.items)])
+    return [_retag(v, rest, newtag) if i == h else v for i, v in enumerate(x)]
+
+
+def _node(x, path):
+    for h in path:
+        x = x.value if h == "t" else x.v if h == "b" else x.items[h[1]][1] if isinstance(h, tuple) else x[h]
+    return x
+
+
+def _find(obj, key):
+    if isinstance(obj, dict):
+        for k, v in obj.items():
+            if k == key:
+                yield v
+            yield from _find(v, key)
+    elif isinstance(obj, list):
+        for v in obj:
+            yield from _find(v, key)
+
+
+def _rendered_as_structure(shown, orig):
+    if orig == 107:
+        return True
+    if orig == 18:
+        aw = next(_find(shown, "suit-authentication-wrapper"), None)
+        return isinstance(aw, dict) and sum(1 for k in aw if k.startswith("SuitAuthentication")) >= 2
+    return any(isinstance(v, dict) for v in _find(shown, "suit-parameter-encryption-info"))
+
+
+def tags_parse(rec, signed, encrypted):
+    """parse direction of the tag sentence: an item that carries another tag (or none) in the place of 107 / 18 / 96
+    is not the envelope / COSE_Sign1 / COSE_Encrypt - parse must refuse the envelope instead of showing a description
+    in which the element is accepted (tag-substitute-accepted) or silently absent (tag-substitute-dropped; finding
+    F12: before the repair, tags 0 / 1 - whose cbor2 decoders raise ValueError - hid the block and all later ones)"""
+    from ..gen import hostile as Hh
+    trees = []
+    t1 = Hh.deep(mcbor.decode(signed))
+    # two authentication blocks so that "stops at the first unreadable block" is visible for block 0 and block 1
+    wrapper = _node(t1, ("t", ("p", 0), "b"))
+    if isinstance(wrapper, list) and len(wrapper) == 2:
+        t1 = _retag(t1, (), 107)
+        wrapper.append(wrapper[1])
+    trees.append(("signed", t1))
+    trees.append(("encrypted", Hh.deep(mcbor.decode(encrypted))))
+    for label, tree in trees:
+        paths = list(_tag_nodes(tree))
+        for pi, path in enumerate(paths):
+            orig = _node(tree, path).tag
+            for nt in OTHER_TAGS:
+                if nt == orig:
+                    continue
+                data = Hh.encode(_retag(tree, path, nt))
+                for route in ("lib", "cmd"):
+                    outp = drive.parse(data, rec.tmpdir(), route, "json")
+                    rec.count(f"tag-substitution:{orig}")
+                    rec.case(f"tagsub/{label}/{pi}/{nt}/{route}", True)
+                    if outp.ok and _rendered_as_structure(outp.value, orig):
+                        rec.violation("tag-substitute-accepted", f"{label} envelope in which tag {orig} (occurrence "
+                                      f"{pi}) is replaced by {'no tag' if nt is None else 'tag %d' % nt} is parsed "
+                                      f"({route}) and the item is shown as the structure tag {orig} marks",
+                                      {"kind": "tags"}, observed={"input": data, "shown": outp.value})
+                    elif outp.ok:
+                        # not shown as the structure, but accepted: the item (and what follows it) is silently left
+                        # out of the description - the tag no longer decides what the envelope is taken to contain
+                        rec.violation("tag-substitute-dropped", f"{label} envelope in which tag {orig} (occurrence "
+                                      f"{pi}) is replaced by {'no tag' if nt is None else 'tag %d' % nt} is parsed "
+                                      f"({route}) without error and the item is silently left out of the description",
+                                      {"kind": "tags"}, observed={"input": data, "shown": outp.value})
+                    else:
+                        rec.count("tag-substitution-refused:" + (outp.exc_name or "?"))
 
 
 def replay(rec, case):
@@ -354,4 +458,11 @@ def canaries(rec):
     d3, p3, m3 = place("policy", "suit-send-sysinfo-failure", None)
     out.append(("value-position name found", shown(d3, p3, "suit-send-sysinfo-failure", m3)))
     out.append(("value-position other name noticed", not shown(d3, p3, "suit-send-sysinfo-success", m3)))
+    two = {"SUIT_Envelope_Tagged": {"suit-authentication-wrapper": {"SuitDigest": {}, "SuitAuthentication1": {},
+                                                                    "SuitAuthentication2": {}}}}
+    one = {"SUIT_Envelope_Tagged": {"suit-authentication-wrapper": {"SuitDigest": {}, "SuitAuthentication1": {}}}}
+    out.append(("wrong-tagged block shown as COSE_Sign1 is noticed", _rendered_as_structure(two, 18)))
+    out.append(("left-out block is not taken for a rendered one", not _rendered_as_structure(one, 18)))
+    out.append(("wrong-tagged COSE_Encrypt shown as a structure is noticed", _rendered_as_structure(
+        {"x": [{"suit-parameter-encryption-info": {"COSE_Encrypt_Tagged": {}}}]}, 96)))
     return out
